@@ -92,6 +92,10 @@ def run(res):
     dyn = {k: res.coverage.get(k) for k in ("evaluations", "distinct_nontrivial", "steps", "stimulus_distribution", "histories_truncated_as_ambiguous")}
     res.coverage.update(cov)
     res.coverage["dynamic_core_histories"] = dyn
+    # the stream transports' handshake and receive loop: an aborted or malformed handshake is reported as that
+    # connection's error (never as "closed", which core takes as "endpoint shut down"), others are not held up, Close returns
+    from .. import stream
+    res.coverage["stream_transport_fault_scenarios"] = stream.run(res, "C12")
     text = open(lp).read()
     nf = int(re.search(r"n_functions_emitted : N := (\d+)", text).group(1))
     nt = int(re.search(r"n_functions_total : N := (\d+)", text).group(1))
